@@ -5,12 +5,13 @@ import QibProofs.Lemmas.TNetTreePermTree
 import QibProofs.Lemmas.TNetBridgeFinset
 import QibProofs.Lemmas.TNetTreeBuildOK
 import QibProofs.Lemmas.TNetTreePrep
+import QibProofs.Lemmas.TNetEinsumTotal
 /-!
 C07 — Network contraction is independent of strategy and equals the defining sum: theorems about the EXECUTABLE model
 (`QibModel/TNet.lean`, driver `drv_tnet`). Statements only; proofs are in `QibProofs/Lemmas/TNetBridgeRel.lean`,
 `TNetEinsumSound.lean`, `TNetEinsumData.lean`, `TNetTreeCert.lean`, `TNetTreeStruct.lean`, `TNetTreeSound.lean`,
 `TNetTreeRoot.lean`, `TNetTreeData.lean`, `TNetEinsumCert.lean`, `TNetEinsumCertMain.lean`, `TNetBridgeDense.lean`, `TNetTreePerm.lean`, `TNetTreePermTree.lean`, `TNetBridgeFinset.lean`, `TNetTreeBuildScan.lean`, `TNetTreeBuildAssign.lean`,
-`TNetTreeBuildInv.lean`, `TNetTreeBuildNode.lean`, `TNetTreeBuildOK.lean`, `TNetTreePrepPerm.lean`, `TNetTreePrep.lean`.
+`TNetTreeBuildInv.lean`, `TNetTreeBuildNode.lean`, `TNetTreeBuildOK.lean`, `TNetTreePrepPerm.lean`, `TNetTreePrep.lean`, `TNetEinsumTotal.lean`.
 
 `RepOK net` is what Python dictionaries and the constructors guarantee (unique keys, `len(shape) == len(bids)`, sorted
 tensor ids of a bond); with it `isConsistent net = .ok true` is the declarative well-formedness `WF net`
@@ -245,6 +246,18 @@ theorem C07_tree_dense {net : Net} {data : Data} (hrep : RepOK net) (hcd : isCon
     (hok : ∀ x ∈ treeOKList net t, x = true) (hroot : rootOK net t am = true) :
     toFullTensor r am = fullTensor net (dataAcc data) :=
   contractTree_dense hrep hcd hct hok hroot
+
+/-- **`as_einsum` never fails** on a consistent network. -/
+theorem C07_asEinsum_total {net : Net} (hrep : RepOK net) (hcons : isConsistent net = .ok true) :
+    ∃ e, asEinsum net = .ok e :=
+  asEinsum_total (wf_of_consistent hrep hcons)
+
+/-- **Single-shot contraction, complete**: on every consistent network with consistent data `contract_einsum` succeeds
+and the expansion of its result along its axes map IS the dense tensor of the defining sum. -/
+theorem C07_einsum_complete {net : Net} {data : Data} (hrep : RepOK net) (hcd : isConsistentData net data = .ok true) :
+    ∃ r am, contractEinsum net data = .ok (r, am) ∧ toFullTensor r am = fullTensor net (dataAcc data) := by
+  obtain ⟨r, am, h⟩ := contractEinsum_total hrep hcd
+  exact ⟨r, am, h, C07_einsum_dense hrep hcd h⟩
 
 /-- **The tree evaluated by `contract_tree` is always certified**: for a consistent network with consistent data and a
 scaffold with at least two leaves that is a binary tree over all real tensors (`ScaffoldFull`: every real tensor id
